@@ -17,7 +17,8 @@ THEOREMS_BY_PROP = {
             "DepLogic.Spec.canon_unique", "DepLogic.C06.reach_roundtrips", "DepLogic.C06.nice_roundtrips",
             "DepLogic.Spec.and_textInv", "DepLogic.Spec.or_textInv", "DepLogic.Spec.fromClause_textInv"],
     "C04": ["DepLogic.C04.leaf_exact", "DepLogic.C04.leaf_exact_plain", "DepLogic.C04.tree_exact",
-            "DepLogic.VOrd.wild_mem", "DepLogic.VOrd.compat_mem", "DepLogic.VOrd.lt_iff", "DepLogic.C01.and_exact",
+            "DepLogic.VOrd.wild_mem", "DepLogic.VOrd.compat_mem", "DepLogic.VOrd.lt_iff", "DepLogic.C04.contains_exact",
+            "DepLogic.C04.range_contains_exact", "DepLogic.C01.and_exact",
             "DepLogic.C01.or_exact", "DepLogic.C01.invert_exact"],
     "C17": ["DepLogic.C17.fromClause_total", "DepLogic.C17.fromSpecifierSet_total", "DepLogic.C17.nextSeries_isSome"],
 }
